@@ -8,6 +8,7 @@ import MosnVerif.Lemmas.HpackOrder
 import MosnVerif.Lemmas.StreamGen
 import MosnVerif.Lemmas.StreamGenPool
 import MosnVerif.Lemmas.H2ClientTable
+import MosnVerif.Lemmas.ProxyGen
 /-!
 # C02 — request/response correlation on an xprotocol client stream connection (property theorems only)
 
@@ -965,4 +966,98 @@ example : let s := Model.H2ClientTable.run noDeleteOnReset (Model.H2ClientTable.
 
 end H2ClientTable
 
+end MosnVerif.Props.C02
+
+/-! ## Pooled proxy objects: generation tags guarding late callbacks (builder c02g10; Model/ProxyGen, Gen.ProxyGen)
+
+One pooled `downStream` object with its whole history, any number of exchanges taking / giving it, any number of armed
+timer callbacks of any kind, EVERY schedule of {other object's newActiveStream, take, arm, fire (Stop is too late from
+here), one statement of a started callback, upstream answer, cleanStream's CAS + Stop, giveStream}. An exchange IS the
+generation it was given. The callbacks' statement lists are a parameter; the code's are regenerated. -/
+namespace MosnVerif.Props.C02
+section ProxyGenerations
+open MosnVerif.Model.ProxyGen MosnVerif.Lemmas.ProxyGen
+open MosnVerif.Gen.ProxyGen (Step)
+
+/-- the invariant holds along every schedule, for every family of guarded callback shapes -/
+theorem proxygen_invariant (progs : Nat → Bool × List Step) (hp : ∀ k, guarded (progs k).1 (progs k).2 = true)
+    (evs : List Ev) : MosnVerif.Lemmas.ProxyGen.Inv (run progs {} evs) := by
+  have h0 : MosnVerif.Lemmas.ProxyGen.Inv ({} : St) :=
+    ⟨Nat.le_refl _, fun _ => rfl, fun h => by simp at h, fun _ h => by simp at h, fun _ h => by simp at h,
+     fun _ h => by simp at h, fun _ h => by simp at h⟩
+  suffices ∀ s, MosnVerif.Lemmas.ProxyGen.Inv s → MosnVerif.Lemmas.ProxyGen.Inv (run progs s evs) from this _ h0
+  induction evs with
+  | nil => exact fun s h => h
+  | cons e r ih => exact fun s h => ih _ (step_inv progs hp s h e)
+
+/-- **late_callback_harmless**: whatever the interleaving of Stop, clean, give, take (by the next exchange, any number of
+times) and the callback's own statements: a callback armed for exchange A only ever resets the upstream stream of /
+produces an error reply for (`hits`) and only ever writes the response token / expiry flag of (`touched`) exchange A
+itself, and only while A still holds the object. (The one thing it may do to a later exchange B is clear B's
+reuseBuffer flag - B's buffers are then not recycled; that is the code's behaviour and is harmless for correlation.) -/
+theorem late_callback_harmless (progs : Nat → Bool × List Step) (hp : ∀ k, guarded (progs k).1 (progs k).2 = true)
+    (evs : List Ev) :
+    (∀ h ∈ (run progs {} evs).hits, h.hit = h.own ∧ h.held = true) ∧ (∀ t ∈ (run progs {} evs).touched, t.2 = t.1) :=
+  ⟨(proxygen_invariant progs hp evs).hits, (proxygen_invariant progs hp evs).touched⟩
+
+/-- **reply_produced_for_own_exchange**: every reply (the upstream's answer or a timeout error reply) is received by the
+exchange it was produced for -/
+theorem reply_produced_for_own_exchange (progs : Nat → Bool × List Step) (hp : ∀ k, guarded (progs k).1 (progs k).2 = true)
+    (evs : List Ev) : ∀ r ∈ (run progs {} evs).replies, r.2 = r.1 :=
+  (proxygen_invariant progs hp evs).replies
+
+/-- the two timer callbacks of the code (regenerated statement lists, generation read when armed) are guarded shapes -/
+theorem real_callbacks_guarded : ∀ k, guarded (realProgs k).1 (realProgs k).2 = true := by
+  intro k; cases k with
+  | zero => decide
+  | succ n => exact (by decide : guarded (realProgs 1).1 (realProgs 1).2 = true)
+
+/-- … so the statements above hold of the code's callbacks, for every schedule -/
+theorem late_timer_callbacks_harmless (evs : List Ev) :
+    (∀ h ∈ (run realProgs {} evs).hits, h.hit = h.own ∧ h.held = true) ∧
+    (∀ t ∈ (run realProgs {} evs).touched, t.2 = t.1) ∧ (∀ r ∈ (run realProgs {} evs).replies, r.2 = r.1) :=
+  ⟨(late_callback_harmless realProgs real_callbacks_guarded evs).1, (late_callback_harmless realProgs real_callbacks_guarded evs).2,
+   reply_produced_for_own_exchange realProgs real_callbacks_guarded evs⟩
+
+/-- the sites the model's `take` / `clean` / `give` stand for are as modelled: one fresh counter value per
+newActiveStream and reuseBuffer := 1, nobody else writes ID; cleanStream = CAS first, timers stopped BEFORE giveStream,
+giveStream last and the only Give; giveStream needs reuseBuffer = 1 and no reset; Reset zeroes the object; the worker
+task carries the generation read before it was scheduled and its re-entry points test it first -/
+theorem pool_sites_as_modelled :
+    MosnVerif.Gen.ProxyGen.newStreamFreshGen = true ∧ MosnVerif.Gen.ProxyGen.newStreamSetsReuse = true ∧
+    MosnVerif.Gen.ProxyGen.genWriters = 2 ∧
+    MosnVerif.Gen.ProxyGen.cleanOrder = [.casCleaned, .resetUpstream, .stopTimers, .destroyFilters, .delete, .give] ∧
+    MosnVerif.Gen.ProxyGen.cleanUpStopsTimers = true ∧
+    MosnVerif.Gen.ProxyGen.giveNeedsReuse = true ∧ MosnVerif.Gen.ProxyGen.giveNeedsNoReset = true ∧
+    MosnVerif.Gen.ProxyGen.givesElsewhere = 0 ∧ MosnVerif.Gen.ProxyGen.resetZeroes = true ∧
+    MosnVerif.Gen.ProxyGen.workerCaptures = true ∧ MosnVerif.Gen.ProxyGen.workerPassesGen = true ∧
+    MosnVerif.Gen.ProxyGen.processErrorTestsGen = true ∧ MosnVerif.Gen.ProxyGen.waitNotifyTestsGen = true ∧
+    MosnVerif.Gen.ProxyGen.onReentryExhaustedTestsGen = true := by decide
+
+/-- the racing schedule: A takes the object, arms timer `k`, the timer fires (callback started, nothing executed), A's
+answer arrives, A cleans (Stop too late) and gives, B takes the same object, then the callback runs `n` statements -/
+def lateSchedule (k n : Nat) : List Ev :=
+  [.take, .arm k, .fire 0, .respond, .clean, .give, .take] ++ List.replicate n (.step 0)
+
+-- non-vacuous: the code's callbacks DO act on their own exchange (a plain timeout), and on the racing schedule they act on nobody
+example : (run realProgs {} [.take, .arm 0, .fire 0, .step 0, .step 0, .step 0, .step 0, .step 0]).hits = [⟨1, 1, true⟩] := by decide
+example : (run realProgs {} [.tick, .take, .arm 1, .fire 0, .step 0, .step 0, .step 0, .step 0, .step 0, .step 0]).hits = [⟨2, 2, true⟩] := by decide
+example : (run realProgs {} (lateSchedule 0 8)).hits = [] ∧ (run realProgs {} (lateSchedule 0 8)).touched = [] ∧
+    (run realProgs {} (lateSchedule 0 8)).o.gen = 2 ∧ (run realProgs {} (lateSchedule 0 8)).o.reuse = false := by decide
+example : (run realProgs {} (lateSchedule 1 8)).hits = [] ∧ (run realProgs {} (lateSchedule 1 8)).replies = [(1, 1)] := by decide
+
+/-- NEGATION WITNESS (i): no generation test - A's callback takes B's response token and times B out -/
+example : (run (fun _ => (true, [.noReuse, .testCleaned, .casResp, .act])) {} (lateSchedule 0 4)).hits = [⟨1, 2, true⟩] ∧
+    guarded true [.noReuse, .testCleaned, .casResp, .act] = false := by decide
+/-- NEGATION WITNESS (ii): the generation is read when the callback FIRES - it reads B's and the test passes -/
+example : (run (fun _ => (false, [.loadGen, .noReuse, .testCleaned, .testGen, .casResp, .act])) {} (lateSchedule 0 6)).hits = [⟨1, 2, true⟩] ∧
+    guarded false [.loadGen, .noReuse, .testCleaned, .testGen, .casResp, .act] = false ∧
+    guarded true [.noReuse, .testCleaned, .loadGen, .testGen, .casResp, .act] = false := by decide
+/-- NEGATION WITNESS (iii): the test is there but the reuseBuffer store is not: the callback passes the test while A
+holds the object, A finishes and B takes the object before the CAS -/
+example : (run (fun _ => (true, [.testCleaned, .testGen, .casResp, .act])) {}
+      [.take, .arm 0, .fire 0, .step 0, .step 0, .respond, .clean, .give, .take, .step 0, .step 0]).hits = [⟨1, 2, true⟩] ∧
+    guarded true [.testCleaned, .testGen, .casResp, .act] = false := by decide
+
+end ProxyGenerations
 end MosnVerif.Props.C02
